@@ -246,6 +246,23 @@ type c14Pending struct {
 	encErr string
 }
 
+// c14MustEncode: the (format, element type, rank) combinations every contiguous tensor of which has to be encodable.
+// CSV: the writer documents matrices only (a 1-D tensor is refused by design) and the reader ints, floats and strings;
+// npy has no string type; protobuf/flatbuffers of strings are KF-25 (they encode, wrongly).
+func c14MustEncode(format string, t reflect.Type, rank int) bool {
+	switch format {
+	case "gob", "gobstream":
+		return true
+	case "npy":
+		return model.IsNumber(t) || t.Kind() == reflect.Bool
+	case "csv":
+		return rank == 2 && (model.IsInt(t) || model.IsFloat(t) || t.Kind() == reflect.String)
+	case "pb", "fb":
+		return model.IsNumber(t)
+	}
+	return false
+}
+
 func c14Run(c *core.Ctx, format, lay string) {
 	dir, err := os.MkdirTemp("", "verif-c14-")
 	if err != nil {
@@ -269,7 +286,7 @@ func c14Run(c *core.Ctx, format, lay string) {
 		for _, shape := range c14Shapes(format, c.Tier) {
 			for _, class := range classes {
 				for _, mk := range []string{"none", "some", "all"} {
-					if mk != "none" && !(lay == gen.LC || lay == gen.LF || lay == gen.LT) {
+					if mk != "none" && !(lay == gen.LC || lay == gen.LF || lay == gen.LT || lay == gen.LS || lay == gen.LSS) {
 						continue
 					}
 					if mk != "none" && (class != "ramp" || len(shape) == 0) {
@@ -347,14 +364,23 @@ func c14Run(c *core.Ctx, format, lay string) {
 					if c.WantSample(format + "/" + lay) {
 						c.Sample(format+"/"+lay, p.desc)
 					}
-					if pp {
-						// a panic is a refusal only in the sense that nothing was written; report it as a refusal class
-						c.Refused(format + "|panic|" + dtypeClass(t) + "|" + lay)
-						_ = pmsg
-						continue
-					}
-					if eerr != nil {
-						c.Refused(format + "|" + dtypeClass(t) + "|" + lay)
+					if pp || eerr != nil {
+						// "Encoding any tensor ...": a contiguous tensor of an element type and rank the format covers has to be
+						// encoded; only a layout the format cannot express may be refused
+						if lay == gen.LC && c14MustEncode(format, t, len(shape)) {
+							msg := pmsg
+							how := "panic"
+							if eerr != nil {
+								msg, how = eerr.Error(), "error"
+							}
+							c.Violation(core.Sig(format, "refused-contiguous", how, dtypeClass(t), "mask="+mk, shapeClass(shape)), caseKey, p.desc, "encoded bytes", msg)
+							continue
+						}
+						if pp {
+							c.Refused(format + "|panic|" + dtypeClass(t) + "|" + lay)
+						} else {
+							c.Refused(format + "|" + dtypeClass(t) + "|" + lay)
+						}
 						continue
 					}
 					if format == "npy" {
